@@ -599,6 +599,12 @@ def _deref_model(it, args, dty, func):
     # `<&mut T as AsRef<U>>::as_ref(&&mut T)`: peel plain references down to the container
     while isinstance(t, Ref) and not isinstance(t, BoxV) and isinstance(t.load(), (Seq, Ref)):
         v, t = t, t.load()
+    if isinstance(t, Agg) and t.ty == "{amutex.guard}":
+        # guard of the modelled async mutex: a reference to the protected value
+        m = t.f[0]
+        while isinstance(m, Ref) and not (isinstance(m.load(), Agg) and m.load().ty == "{amutex}"):
+            m = m.load()
+        return m.child(1)
     if isinstance(t, Seq):
         return SliceRef(v, 0, len(t.f), t.kind in ("string", "str"))
     if isinstance(t, (Ref, SliceRef)):     # Box<T>, Arc<T>, &T
@@ -2656,6 +2662,63 @@ def _async_poll(it, args, dty, func):
     while isinstance(coro, Ref) and not (isinstance(coro.load(), Agg) and str(coro.load().ty).startswith("{coroutine")):
         coro = coro.load()
     return it.run_body(it.prog.body(fn.split("@")[0] + "::{closure#0}"), [coro, args[1]])
+
+
+# --- tokio::select! : poll_fn over a closure that polls the branches, random or biased start ------------------
+@model("std::future::poll_fn", "tokio::macros::support::poll_fn", "tokio::future::poll_fn", "core::future::poll_fn")
+def _poll_fn(it, args, dty, func):
+    return Agg("{pollfn}", [args[0]])
+
+
+@trait_model(r"^(std|core)::future::PollFn|^tokio::future::PollFn|^tokio::macros::support::PollFn", "Future", "poll")
+def _pollfn_poll(it, args, dty, func):
+    pf = _deref(args[0])
+    if not (isinstance(pf, Agg) and pf.ty == "{pollfn}"):
+        raise Unsupported(f"poll of {pf!r}")
+    clos = pf.f[0]
+    return it.call_closure(Ref(Cell(clos, "pollfn-closure"), ()) if not isinstance(clos, Ref) else clos, Agg("tuple", [args[1]]), dty)
+
+
+@trait_model(r"^(std|core)::future::PollFn|^tokio::future::PollFn|^tokio::macros::support::PollFn", "IntoFuture", "into_future")
+def _pollfn_into(it, args, dty, func):
+    return args[0]
+
+
+@model("tokio::macros::support::poll_budget_available")
+def _poll_budget(it, args, dty, func):
+    return Enum("std::task::Poll", 0, "Ready", [UNIT])       # cooperative budget: never exhausted in the model
+
+
+_RNG = [0]
+
+
+@model("tokio::macros::support::thread_rng_n")
+def _thread_rng_n(it, args, dty, func):
+    # the start branch of an unbiased select!: every value is explored
+    n = concretize(it, args[0], 64, "select! branch count")
+    _RNG[0] += 1
+    v = z3.BitVec(f"select_start#{it.steps}", 32)
+    c = it.ctx.switch(v, list(range(n)))
+    if c == "otherwise":
+        raise PathAbort("select start out of range")
+    return c
+
+
+@trait_model(r"^\{async block@", "Future", "poll")
+def _async_block_poll(it, args, dty, func):
+    coro = args[0]
+    while isinstance(coro, Ref) and not (isinstance(coro.load(), Agg) and str(coro.load().ty).startswith("{coroutine")):
+        coro = coro.load()
+    ty = str(coro.load().ty)
+    fn = it.async_block_fn(ty)
+    if fn is None:
+        raise Unsupported("async block body not found: " + ty[:100])
+    return it.run_body(it.prog.body(fn), [coro, args[1]])
+
+
+@trait_model(r"^\{async block@", "IntoFuture", "into_future")
+def _async_block_into(it, args, dty, func):
+    return args[0]
 
 
 @model("std::pin::Pin::new_unchecked", "std::pin::Pin::new", "std::pin::Pin::as_mut", "std::pin::Pin::get_mut", "std::pin::Pin::into_inner")
